@@ -39,6 +39,8 @@ func main() {
 			genTimer(seed, n, os.Args[5])
 		case "citadel":
 			genCitadel(seed, n, os.Args[5])
+		case "sds":
+			genSds(seed, n, os.Args[5])
 		default:
 			os.Exit(2)
 		}
@@ -50,6 +52,8 @@ func main() {
 			execCache(os.Args[3], os.Args[4])
 		case "timer":
 			execTimer(os.Args[3], os.Args[4])
+		case "sds":
+			execSds(os.Args[3], os.Args[4])
 		default:
 			os.Exit(2)
 		}
@@ -61,6 +65,8 @@ func main() {
 			oracleCache(os.Args[3], os.Args[4])
 		case "timer":
 			oracleTimer(os.Args[3], os.Args[4])
+		case "sds":
+			oracleSds(os.Args[3], os.Args[4])
 		default:
 			os.Exit(2)
 		}
